@@ -95,9 +95,10 @@ pub fn enumerate_plans(len: usize, tokens: &[Token], seed: u64, exhaustive_limit
 		let cyc: Vec<usize> = (0..n).map(|_| 1 + rng.usize(9)).collect();
 		plans.push(ReaderKind::Direct(RefillPlan::Cycle(cyc)));
 	}
-	// (capacity 0 is a reader kind of its own: std's BufReader then passes every read straight through and its
-	// fill_buf() is always empty — "regardless of its internal buffer capacity")
-	for cap in 0..=16usize {
+	// (capacity 0 is deliberately NOT a reader kind: std's BufReader::with_capacity(0, _) returns an empty buffer from
+	// fill_buf() before the end of the input, which BufRead's contract reserves for end of input, and the property's
+	// quantifier ranges over chunk sizes 1..len — DESIGN §13, S15-C11p)
+	for cap in 1..=16usize {
 		let plan = if cap % 2 == 0 { RefillPlan::Whole } else { RefillPlan::Fixed(3) };
 		plans.push(ReaderKind::BufReader { cap, plan });
 	}
